@@ -262,6 +262,8 @@ type c08Run struct {
 	snap     map[uint64]map[string]string
 	corrupt  string
 	held     *c08Held
+	liveOf   *dkv.DB
+	liveSnap map[string]string
 	keep     []any
 }
 
@@ -462,6 +464,9 @@ func c08Scan(db *dkv.DB) (out string) {
 	return showScanEntries(db, nil)
 }
 
+// c08Leaked keeps abandoned-without-cleanup instances reachable (their table cleanups must not run either).
+var c08Leaked []any
+
 func runC08Trace(c lib.Case) []string {
 	c07Mu.Lock() // one DB at a time: the flush/compaction queues and the hook handler are process-global
 	defer c07Mu.Unlock()
@@ -476,6 +481,14 @@ func runC08Trace(c lib.Case) []string {
 		handles: map[uint64]recovery.CheckpointHandle{}, uriID: map[string]int{}, snap: map[uint64]map[string]string{}}
 	r.start(r.root, nil)
 	defer func() {
+		if r.corrupt != "" && r.db != nil {
+			// the parked background tasks of this instance would read the damaged files: they are never resumed.
+			// They keep the locks of the process-wide task queues, which are therefore replaced.
+			r.fs.dead.Store(true)
+			c08Leaked = append(c08Leaked, r.db, r.s, r.keep)
+			dkv.VerifResetQueues()
+			r.db = nil
+		}
 		r.crash()
 		verifhook.Set(nil)
 		runtime.KeepAlive(r.keep)
@@ -707,6 +720,10 @@ func runC08Trace(c lib.Case) []string {
 		if r.db != nil && f[0] != "get" && f[0] != "scan" && f[0] != "peek" {
 			if st := r.intact(); st != "ok" {
 				r.corrupt = st
+			} else if f[0] == "bg" || f[0] == "reopen" {
+				if st := r.liveIntact(); st != "ok" {
+					r.corrupt = st
+				}
 			}
 		}
 	}
@@ -782,6 +799,25 @@ func (r *c08Run) intact() string {
 					return fmt.Sprintf("missing ckpt=%d %s", id, name)
 				}
 				return fmt.Sprintf("changed ckpt=%d %s", id, name)
+			}
+		}
+	}
+	return "ok"
+}
+
+// liveIntact: table files are immutable, so a table of the live level list must keep the content it had when it
+// was first seen there (a background task reading an overwritten table would bring the process down).
+func (r *c08Run) liveIntact() string {
+	if r.liveOf != r.db {
+		r.liveOf, r.liveSnap = r.db, map[string]string{}
+	}
+	for _, lvl := range r.db.VerifLevels().VerifLayout() {
+		for _, ti := range lvl {
+			got := r.hashOf(ti.URI)
+			if was, ok := r.liveSnap[ti.URI]; !ok {
+				r.liveSnap[ti.URI] = got
+			} else if was != got {
+				return "changed live " + ti.Name
 			}
 		}
 	}
